@@ -55,16 +55,51 @@ def rule_o1(ctx: Ctx) -> None:
                         else:
                             ctx.violation("C05-O1", fi, node, f"{cname}._pruner is called from {fi.qual}: the pruning loop may see an unsorted list")
         calls_in_new = [n for n in walk_no_nested(new.node) if isinstance(n, ast.Call) and call_name(n) and call_name(n)[-1] == "_pruner"]
-        rets = [n for n in walk_no_nested(new.node) if isinstance(n, ast.Return) and n.value is not None and any(sub in calls_in_new for sub in ast.walk(n.value))]
-        if len(calls_in_new) != 1 or len(rets) != 1 or rets[0].value is not calls_in_new[0] or new.body[-1] is not rets[0]:
-            ctx.violation("C05-O1", new, new.node, f"{cname}.__new__ does not end by returning the pruned, sorted input (`return cls._pruner(sorted(...))`)")
+        if len(calls_in_new) != 1:
+            raise AnalysisError(f"{new.where}: expected exactly one call of the pruning loop, found {len(calls_in_new)}")
         check_pruner_body(ctx, cname, pruner)
-        # empty input
-        first = new.body[0] if new.body else None
-        if isinstance(first, ast.If) and unparse(first.test) == f"not {new.vararg}" and len(first.body) == 1 and isinstance(first.body[0], ast.Return):
-            ctx.ok("C05-O1", new.where, "no patterns -> empty basis", first, new)
-        else:
-            raise AnalysisError(f"{new.where}: empty-input shortcut not recognised")
+        # every way out of the constructor: the pruned list, or the empty basis when nothing was given
+        va = new.vararg
+        derived = {va} | {st.targets[0].id for st in walk_no_nested(new.node) if isinstance(st, ast.Assign) and len(st.targets) == 1 and isinstance(st.targets[0], ast.Name)
+                          and any(isinstance(n, ast.Name) and n.id == va for n in ast.walk(st.value))}
+        rets = [n for n in walk_no_nested(new.node) if isinstance(n, ast.Return)]
+        pruned = 0
+        for r in rets:
+            v = r.value
+            if isinstance(v, ast.IfExp) and unparse(v.test) == va and v.body is calls_in_new[0] and not any(isinstance(n, ast.Name) and n.id in derived for n in ast.walk(v.orelse)):
+                pruned += 1
+                ctx.ok("C05-O1", new.where, "no patterns -> empty basis", r, new)
+                continue
+            if v is calls_in_new[0]:
+                pruned += 1
+                continue
+            if v is not None and any(sub is calls_in_new[0] for sub in ast.walk(v)):
+                raise AnalysisError(f"{new.where}: the pruned list is post-processed (`{unparse(v)[:60]}`) before it is returned")
+            if v is not None and any(isinstance(n, ast.Name) and n.id in derived for n in ast.walk(v)):
+                ctx.violation("C05-O1", new, r, f"{cname}.__new__ returns `{unparse(v)[:60]}` built from the input without pruning/sorting it", robust=True)
+                continue
+            if empty_context(new, r, va):
+                ctx.ok("C05-O1", new.where, "no patterns -> empty basis", r, new)
+            else:
+                raise AnalysisError(f"{new.where}: a return that is neither the pruned list nor the empty-input shortcut (`{unparse(r)[:60]}`)")
+        if pruned != 1:
+            raise AnalysisError(f"{new.where}: the pruned list is not returned directly")
+
+
+def empty_context(new: FuncInfo, ret: ast.Return, va: str) -> bool:
+    """The return is reached only when no pattern was given: inside `if not va:` / the else of `if va:`, or
+    after an `if va:` whose body always leaves the function."""
+    body = new.body
+    for i, st in enumerate(body):
+        if isinstance(st, ast.If):
+            t = unparse(st.test)
+            if t == f"not {va}" and any(n is ret for b in st.body for n in ast.walk(b)):
+                return True
+            if t == va and any(n is ret for b in st.orelse for n in ast.walk(b)):
+                return True
+            if t == va and not st.orelse and st.body and isinstance(st.body[-1], (ast.Return, ast.Raise)) and any(n is ret for later in body[i + 1:] for n in ast.walk(later)):
+                return True
+    return False
 
 
 def check_pruner_arg(ctx: Ctx, cname: str, new: FuncInfo, call: ast.Call) -> None:
@@ -208,11 +243,18 @@ def check_pruner_body(ctx: Ctx, cname: str, pr: FuncInfo) -> None:
             if isinstance(test.op, ast.Or) and all(unparse(o) == f"not {accn}" for o in others):
                 acc = accn  # ``not acc or patt.avoids(*acc)`` is the same test
             elif isinstance(test.op, ast.Or):
-                ctx.violation("C05-O1", pr, loop.body[0], f"a pattern is also accepted when `{' or '.join(unparse(o) for o in others)}` without being checked against the accepted elements: the basis may keep an element that contains another (or a repeated element)")
+                ctx.violation("C05-O1", pr, loop.body[0], f"a pattern is also accepted when `{' or '.join(unparse(o) for o in others)}` without being checked against the accepted elements: the basis may keep an element that contains another (or a repeated element)", robust=True)
                 return
             else:
                 ctx.violation("C05-O1", pr, loop.body[0], f"a pattern that avoids every accepted element is still dropped unless `{' and '.join(unparse(o) for o in others)}`: the pruned basis may no longer define the class of the input")
                 return
+    if acc is None and isinstance(test, ast.Call) and call_name(test) in ((var, "avoids"), (var, "avoids_set")) and len(test.args) == 1:
+        a0 = test.args[0].value if isinstance(test.args[0], ast.Starred) else test.args[0]
+        if isinstance(a0, (ast.GeneratorExp, ast.ListComp, ast.SetComp)) and len(a0.generators) == 1 and a0.generators[0].ifs and isinstance(a0.generators[0].iter, ast.Name) \
+                and unparse(a0.elt) == unparse(a0.generators[0].target):
+            ctx.violation("C05-O1", pr, loop.body[0], f"a pattern is checked only against the accepted elements with `{' and '.join(unparse(c) for c in a0.generators[0].ifs)[:70]}`, not against every accepted element: "
+                          "the basis may keep an element that contains another (or a repeated element)", robust=True)
+            return
     if acc is None:
         if isinstance(test, ast.Call) and call_name(test) and call_name(test)[-1] in ("contains", "avoids", "avoids_set"):
             ctx.violation("C05-O1", pr, loop.body[0], f"accept test `{unparse(test)}` is not `pattern avoids every accepted element`")
